@@ -146,6 +146,22 @@ def check(run, model, tier):
             want = 'false' if lab == 'true' else 'true'
             if guarded_by_edge(g, n, t, 'true') and not pol or guarded_by_edge(g, n, t, 'false') and pol:
                 ok2 = True
+        if not ok2:
+            # through locals that hold the classification (`internal = signals.is_inner_signal(name) is True` ... `found = not internal and ...` ... `if found:`)
+            from sa.boolflow import must_atoms as _ma3
+            for (l_, op_, r_) in _ma3(g, n, inner.node, params=inner.params):
+                if 'is_inner_signal(' in l_ and ((op_ == 'Falsy') or (op_ in ('IsNot', 'NotEq') and r_ == 'True') or (op_ in ('Is', 'Eq') and r_ == 'False')):
+                    ok2 = True
+                if op_ in ('Falsy', 'Truthy') and l_.isidentifier():
+                    ds_ = [d_ for d_ in local_defs(inner.node).get(l_, []) if isinstance(d_, ast.AST)]
+                    if len(ds_) == 1 and 'is_inner_signal(' in norm(ds_[0]):
+                        i_, p_ = strip_not(ds_[0])
+                        pos_ = p_          # True: the local is true exactly for inner signals
+                        if isinstance(i_, ast.Compare) and len(i_.ops) == 1 and isinstance(i_.comparators[0], ast.Constant) and isinstance(i_.comparators[0].value, bool):
+                            same_ = isinstance(i_.ops[0], (ast.Is, ast.Eq)) == i_.comparators[0].value
+                            pos_ = p_ if same_ else not p_
+                        if (op_ == 'Falsy') == pos_:
+                            ok2 = True
         ok3 = all(g.dominates(cn, n) for cn in inst_calls) and bool(inst_calls)
         run.inst('SPY.hook-marker', inner, 'HOOK only if the handler returned HANDLED', ok1, 'the HOOK line is not control-dependent on `status is HANDLED`', node=c, obligation=True)
         run.inst('SPY.hook-marker', inner, 'HOOK only for non-inner signals', ok2, 'the HOOK line is not control-dependent on the inner-signal test', node=c, obligation=True)
@@ -171,8 +187,11 @@ def check(run, model, tier):
         apps = [(n, c) for n in gg.nodes if n.kind not in ('entry', 'exit', 'xexit', 'def') for c in n.calls()
                 if isinstance(c.func, ast.Attribute) and c.func.attr == 'append' and ring_of(c.func.value) == 'rtc.spy']
         hit = []
+        mdefs_ = local_defs(inn.node)
         for n, c in apps:
             a = c.args[0] if c.args else None
+            if isinstance(a, ast.Name) and len(mdefs_.get(a.id, [])) == 1 and isinstance(mdefs_[a.id][0], ast.AST):
+                a = mdefs_[a.id][0]          # the line built into a local first
             lit = const_str(a)
             fmt = partial_format(a)
             if lit == text or (fmt is not None and fmt.startswith(text)):
@@ -287,7 +306,17 @@ def check(run, model, tier):
                 inst_steps = [s for s in steps if gg.dominates(s, node[0])]
                 if inst_steps:
                     cnt = queues.count(gg, node, start=inst_steps[0])
-                    run.inst('SPY.accumulate', f, 'exactly one extend after the step', cnt == (1, 1), 'extends after the step: %s' % (cnt,), node=c, obligation=True)
+                    okx = cnt == (1, 1)
+                    if not okx and cnt == (0, 1):
+                        # the decision "this step is recorded" may travel in a boolean local taken before the step: path-sensitive - on every way through the
+                        # wrapper the flush happens exactly when the step log was cleared for this step
+                        from sa.boolflow import simulate as _sim
+                        clr_ = [n_ for n_ in gg.nodes if n_.kind not in ('entry', 'exit', 'xexit', 'def') and
+                                any(isinstance(x.func, ast.Attribute) and x.func.attr == 'clear' and ring_of(x.func.value, al) == 'rtc.spy' for x in n_.calls())]
+                        if clr_:
+                            res_ = _sim(gg, gg.entry, {gg.exit}, {}, track=set(clr_) | set(node), watch=set(), fnode=f.node, params=f.params)
+                            okx = bool(res_) and all((any(c_ in vis_ for c_ in clr_)) == (node[0] in vis_) for _s, _e, vis_ in res_)
+                    run.inst('SPY.accumulate', f, 'exactly one extend after the step', okx, 'extends after the step: %s' % (cnt,), node=c, obligation=True)
                 # whenever the chart is instrumented, *every* normal path through this wrapper runs the step and then copies the step log: nothing but the
                 # instrumented flag may route a step around the accumulation (a stuck re-entrancy flag, a cached mode, ...)
                 from sa.boolflow import simulate
